@@ -268,7 +268,7 @@ fn gen_history(rng: &mut Rng, fam: &str) -> Vec<Stmt> {
 }
 struct Fam { name: &'static str, n: usize }
 fn families(thorough: bool) -> Vec<Fam> {
-    let m = if thorough { 4 } else { 1 };
+    let m = if thorough { 10 } else { 1 };
     vec![Fam { name: "insert_only", n: 90 * m }, Fam { name: "late_index", n: 50 * m }, Fam { name: "big", n: 4 * m }, Fam { name: "residual", n: 30 * m },
          Fam { name: "delete", n: 40 * m }, Fam { name: "update", n: 40 * m }, Fam { name: "mixed", n: 40 * m }]
 }
